@@ -179,6 +179,39 @@ def make_harness(P):
                     conds.append(ctx.le(abs(xi), atol * nterm))
                 ctx.check("simplify(atol) changes no matrix entry by more than atol per term", ctx.all(conds))
                 ctx.check("simplify(atol) keeps only terms above atol", ctx.all([ctx.lt(atol, abs(o.factor)) for o in res]))
+                # exact documented semantics: equal terms are merged FIRST, then a merged term is dropped iff |merged factor| <= atol
+                def unit(o):
+                    per = {d: np.eye(2, dtype=complex) for d in range(NDOF)}
+                    for sy, d in zip(o.split_symbol, o.dofs):
+                        per[d] = per[d].dot(PAULI[sy])
+                    k = np.ones((1, 1), dtype=complex)
+                    for d in range(NDOF):
+                        k = np.kron(k, per[d])
+                    return k
+                groups = []          # (unit matrix, merged factor of the input, summed factor in the result)
+                for o in L:
+                    u = unit(o)
+                    for g in groups:
+                        if np.array_equal(g[0], u):
+                            g[1] = g[1] + o.factor
+                            break
+                    else:
+                        groups.append([u, o.factor, 0])
+                ok_struct = True
+                for o in res:
+                    u = unit(o)
+                    for g in groups:
+                        if np.array_equal(g[0], u):
+                            g[2] = g[2] + o.factor
+                            break
+                    else:
+                        ok_struct = False
+                sem = [ok_struct]
+                for u, cin, cout in groups:
+                    big = ctx.lt(atol, abs(cin))
+                    sem.append(ctx.implies(big, ctx.eq(cout, cin)))
+                    sem.append(ctx.implies(ctx.neg(big), ctx.eq(cout, 0)))
+                ctx.check("simplify(atol): every group of equal terms is kept with its MERGED factor iff that merged factor exceeds atol (merge first, drop afterwards)", ctx.all(sem))
         elif shape == "eqhash":
             a, b = L[0], L[1]
             same = (a == b)
